@@ -210,6 +210,8 @@ def classify(p):
             sig = "c06:rule-name-capture"
         elif p.get("family") == "smartboth":
             sig = "c06:smart-fact-both-rules"
+        elif p.get("family") == "samename":
+            sig = "c06:same-simple-name"
         out.append(("C06", sig, "atoms %s" % [t[1] for t in fails if t[0] == "temporal"]))
     if v.get("factrules_missing"):
         out.append(("C06", "c06:fact-rule-missing", "a temporal rule the predicate reaches was not applied to a fact: %s" % v["factrules_missing"][:3]))
@@ -292,7 +294,8 @@ def run(ctx, prop):
     # problems of the field-read family that are satisfiable by construction but reported unsolvable: the expression built for `o.w` does
     # not denote the field of any admissible choice (completeness of the field read; the general claim belongs to C02)
     # the same for the other directed families whose problems are satisfiable by construction: the planner must not reject them
-    BYC = {"shadow": ("C06", "c06:rule-name-capture"), "smartboth": ("C06", "c06:smart-fact-both-rules"), "fwd": ("C17", "c17:forward-referenced-base-class")}
+    BYC = {"shadow": ("C06", "c06:rule-name-capture"), "smartboth": ("C06", "c06:smart-fact-both-rules"), "fwd": ("C17", "c17:forward-referenced-base-class"),
+           "samename": ("C06", "c06:same-simple-name")}
     for p in res["problems"]:
         if p.get("expect") == "sat" and p["status"] in ("unsolvable", "exception") and p["family"] in BYC and BYC[p["family"]][0] == prop:
             mine.append((dict(p, verdict={"expected": "satisfiable by construction", "reported": p["status"], "what": p.get("what")}), BYC[p["family"]][1],
